@@ -1228,8 +1228,11 @@ class FnEmitter:
         if isinstance(rt, IntT):
             if rt.w == 1: return ['%s = (*(uint8_t*)%s) & 1;' % (R, p)]
             if cwidth(rt.w) != rt.w:
-                n = self.mod.sizeof(rt)
-                return ['%s = 0; memcpy(&%s, %s, %d);' % (R, R, p, n), '%s = %s;' % (R, self.em.norm(R, rt.w))]
+                # odd width (i24, i40, i56 ... produced by clang for small struct copies): assemble from bytes
+                n = (rt.w + 7) // 8
+                ct = cint(rt.w)
+                expr = ' | '.join('((%s)((uint8_t*)%s)[%d] << %d)' % (ct, p, i, 8 * i) for i in range(n))
+                return ['%s = %s;' % (R, self.em.norm('(%s)' % expr, rt.w))]
             return ['%s = *(%s*)%s;' % (R, cint(rt.w), p)]
         if isinstance(rt, PtrT): return ['%s = *(uint8_t**)%s;' % (R, p)]
         if isinstance(rt, StructT):
@@ -1247,10 +1250,10 @@ class FnEmitter:
         rt = self.mod.resolve(ty)
         if isinstance(rt, IntT):
             if cwidth(rt.w) != rt.w and rt.w != 1:
-                n = self.mod.sizeof(rt)
+                n = (rt.w + 7) // 8
                 self.tmpn += 1; t = 'st_t%d' % self.tmpn
                 self.decls.append('%s %s;' % (cint(rt.w), t))
-                return ['%s = %s; memcpy(%s, &%s, %d);' % (t, x, p, t, n)]
+                return ['%s = %s;' % (t, x)] + ['((uint8_t*)%s)[%d] = (uint8_t)(%s >> %d);' % (p, i, t, 8 * i) for i in range(n)]
             return ['*(%s*)%s = %s;' % (cint(rt.w), p, x)]
         if isinstance(rt, PtrT): return ['*(uint8_t**)%s = %s;' % (p, x)]
         if isinstance(rt, StructT):
@@ -1354,7 +1357,7 @@ NOTHROW_EXT = {'_ZNSt9exceptionD2Ev', '_ZNSt9exceptionD1Ev', '_ZNSt14overflow_er
                '_ZSt18_Rb_tree_incrementPKSt18_Rb_tree_node_base', '_ZSt18_Rb_tree_decrementPSt18_Rb_tree_node_base', '_ZSt18_Rb_tree_incrementPSt18_Rb_tree_node_base', '_ZSt18_Rb_tree_decrementPKSt18_Rb_tree_node_base', '_ZSt29_Rb_tree_insert_and_rebalancebPSt18_Rb_tree_node_baseS0_RS_', '_ZSt28_Rb_tree_rebalance_for_erasePSt18_Rb_tree_node_baseRS_',
                'malloc', 'free', 'realloc', 'memcpy', 'memmove', 'memset', 'memcmp', 'bcmp', 'strlen', '_ZdlPv', '_ZdlPvm', '_ZdaPv',
                '_ZnwmRKSt9nothrow_t', 'vf_nondet_u8', 'vf_nondet_u16', 'vf_nondet_u32', 'vf_nondet_u64', 'vf_assume', 'vf_assert',
-               'vf_note', 'vf_reach', 'vf_on_write', 'vf_on_read'}
+               'vf_note', 'vf_reach', 'vf_on_write', 'vf_on_read', 'vf_havoc', 'vf_heap_reset'}
 EXT_MAP = {'_ZNSt9exceptionD2Ev': 'vf_nop1', '_ZNSt9exceptionD1Ev': 'vf_nop1', '_ZNSt14overflow_errorD1Ev': 'vf_nop1', '_ZNSt12out_of_rangeD1Ev': 'vf_nop1', '_ZNSt13runtime_errorD2Ev': 'vf_nop1', '_ZNSt11logic_errorD2Ev': 'vf_nop1', '_ZNSt9bad_allocD1Ev': 'vf_nop1',
            '_ZNSt14overflow_errorC1EPKc': 'vf_nop2', '_ZNSt12out_of_rangeC1EPKc': 'vf_nop2', '_ZNSt12length_errorC1EPKc': 'vf_nop2', '_ZNSt9bad_allocC1Ev': 'vf_nop1',
            '_ZSt18_Rb_tree_incrementPKSt18_Rb_tree_node_base': 'vf_rb_inc', '_ZSt18_Rb_tree_decrementPSt18_Rb_tree_node_base': 'vf_rb_dec',
